@@ -965,8 +965,9 @@ def _sim_forged(self, victim, op):
         payload += bytes(3 - len(payload))
     dcid = bytes(peer.conn._peer_cid.cid)
     version = int(peer.conn._version)
+    first_or = int(op.get("first_or", 0))  # e.g. 0x08 / 0x10: reserved bits of a short header (protected, so only visible after removal of header protection)
     if ptype == "1rtt":
-        hdr = bytes([0x40 | (ctx.key_phase << 2) | 1]) + dcid
+        hdr = bytes([0x40 | (ctx.key_phase << 2) | 1 | first_or]) + dcid
     else:
         scid = bytes(peer.conn.host_cid)
         hdr = bytes([0xC0 | (TYPE_CODE[version][ptype] << 4) | 1]) + version.to_bytes(4, "big") + bytes([len(dcid)]) + dcid + bytes([len(scid)]) + scid
